@@ -47,7 +47,7 @@ def split_case(draw):
             'hnorm': draw(st.sampled_from([0.05, 0.1, 0.2, 0.4])), 'steps': draw(st.integers(1, 3)),
             'scheme': draw(st.sampled_from(['lie', 'strang', 'yoshida', 'kahan_li'])),
             'normalize': draw(st.sampled_from([0, 0, 2])) if klass != 'stochastic' else draw(st.sampled_from([1, 1, 0])),
-            'int_components': draw(st.sampled_from([False, False, False, True]))}
+            'int_components': draw(st.sampled_from([False, False, False, True])), 'x_scale_exp': draw(st.sampled_from([0, 0, 0, -9, 7]))}
 
 
 def components(c, rng):
@@ -180,6 +180,9 @@ def body_structure(c):
     x0 = TT([build.rand_array(rng, (r[i], dims[i], 1, r[i + 1]), c['cplx'], 'nonneg' if pos else 'normal') for i in range(d)])
     if not pos:
         x0 = (1.0 / np.linalg.norm(dense.contract(x0.cores))) * x0
+    if c.get('x_scale_exp', 0):
+        # the schemes are linear in the state (thresholds are relative): a state of norm 1e-9 or 1e7 must work like one of norm 1
+        x0.cores[0] = x0.cores[0] * 10.0 ** c['x_scale_exp']
     snap = build.snapshot(x0)
     p = c['normalize']
     sol, passed = call(c['scheme'], args, x0, h, c['steps'], p)
@@ -219,6 +222,8 @@ def body_structure(c):
         lab.add('2d_coupling')
     if intc:
         lab.add('int_components')
+    if c.get('x_scale_exp', 0):
+        lab.add('rescaled_state')
     return lab
 
 
